@@ -99,7 +99,7 @@ func runC17(w *World) *Result {
 		return r
 	}
 	r.Analysed["bash_line_variants"] = len(b.Lines)
-	c08Quote(w, b, r, func(m string) bool { return m == "WriteFile" || m == "ReadFile" || m == "Exists" })
+	c08Quote(w, b, r, func(m string) bool { return m == "WriteFile" || m == "ReadFile" || m == "Exists" || m == "FuncCall" }) // paths and contents also travel as function arguments
 	rule := "R-C17-append"
 	trueStr, falseStr, ok := w.BoolStrings()
 	if !ok {
